@@ -425,6 +425,47 @@ func suffixSkip(name string, suffixes []string) string {
 }
 
 // checkC18 is the whole check of property C18.
+// listingCalls: how cmd/test_gen lists the files of the package. flat: calls that list one directory
+// (os.ReadDir, ioutil.ReadDir, (*os.File).ReadDir/Readdir/Readdirnames); deep: calls that can reach
+// files of nested directories, which belong to other packages (filepath.Walk/WalkDir, fs.WalkDir,
+// Glob, os.DirFS).
+func listingCalls(file string) (flat, deep []string, err error) {
+	fset := token.NewFileSet()
+	f, err := parser.ParseFile(fset, file, nil, 0)
+	if err != nil {
+		return nil, nil, err
+	}
+	ast.Inspect(f, func(n ast.Node) bool {
+		c, ok := n.(*ast.CallExpr)
+		if !ok {
+			return true
+		}
+		se, ok := c.Fun.(*ast.SelectorExpr)
+		if !ok {
+			return true
+		}
+		q := se.Sel.Name
+		if id, ok := se.X.(*ast.Ident); ok {
+			q = id.Name + "." + q
+		}
+		switch q {
+		case "os.ReadDir", "ioutil.ReadDir":
+			flat = append(flat, q)
+		case "filepath.Walk", "filepath.WalkDir", "fs.WalkDir", "filepath.Glob", "fs.Glob", "os.DirFS", "fs.ReadDir", "fs.Sub":
+			deep = append(deep, q)
+		default:
+			switch se.Sel.Name {
+			case "Readdir", "Readdirnames":
+				flat = append(flat, "(*os.File)."+se.Sel.Name)
+			case "ReadDir":
+				flat = append(flat, "(*os.File).ReadDir")
+			}
+		}
+		return true
+	})
+	return
+}
+
 func checkC18(pc *propCheck) {
 	src := filepath.Join(repoDir, "cmd", "test_gen", "main.go")
 	vc := newVC(&Program{}, "cmd/test_gen.main")
@@ -504,6 +545,26 @@ func checkC18(pc *propCheck) {
 			o.Result = &SolverResult{Status: "unknown", Solver: "gvc-ast-scan", Output: fmt.Sprintf("found %d test-emitting Fprintf calls per matching line", modes[md].emits)}
 		}
 	}
+	// structure: nothing for any other function -- only files of the package directory itself are read
+	{
+		o := vc.oblige("structure", "cmd/test_gen.main/structure[only the files of the package directory itself are scanned]", "true", "true", src)
+		flat, deep, lerr := listingCalls(src)
+		if lerr == nil && len(deep) == 0 && len(flat) > 0 {
+			o.Result = &SolverResult{Status: "unsat", Solver: "gvc-ast-scan", Output: fmt.Sprintf("directory listing through %v only (one directory, not its sub-directories)", flat)}
+		} else {
+			rr := pc.replayTestGen()
+			pc.tgReplay = &rr
+			why := fmt.Sprintf("files are listed through %v %v", flat, deep)
+			pc.Bounded = append(pc.Bounded, "cmd/test_gen file listing not in the recognised shape ("+why+"): decided by one generated directory with a nested package (bounded)")
+			pc.Extra["bounded"] = pc.Bounded
+			if rr.Confirmed {
+				o.Goal = "false"
+				o.Result = &SolverResult{Status: "unknown", Solver: "gvc-ast-scan", Output: why + "; the generated-directory scenario fails: " + rr.Detail}
+			} else {
+				o.Result = &SolverResult{Status: "unsat", Solver: "bounded-directory-scenario", Output: why + "; generated-directory scenario passes (bounded, not a proof)"}
+			}
+		}
+	}
 	pc.Extra["patterns"] = map[string]any{"go": modes["go"].patterns, "coq": modes["coq"].patterns, "skip_go": modes["go"].suffixes, "skip_coq": modes["coq"].suffixes}
 	pc.Obls = append(pc.Obls, vc.obls...)
 }
@@ -532,7 +593,10 @@ func (pc *propCheck) replayTestGenK(known bool) replayResult {
 		bigNames = append(bigNames, fmt.Sprintf("testBig%02d", i))
 	}
 	files["f_big.go"] = big.String()
+	// a nested directory is another package: its functions are "any other function"
+	files["sub/n.go"] = "package sub\n\nfunc testNested() bool {\n\treturn true\n}\n\nfunc failing_testNestedToo() bool {\n\treturn false\n}\n"
 	for n, c := range files {
+		os.MkdirAll(filepath.Dir(filepath.Join(dir, n)), 0o755)
 		os.WriteFile(filepath.Join(dir, n), []byte(c), 0o644)
 	}
 	run := func(mode string) (string, error) {
